@@ -430,7 +430,7 @@ func isoNoiseWild(c isoCase, n int, srv *p9.Server, cl *p9.Client, progress *int
 	// operations through kept fids, so that different goroutines keep meeting on
 	// the same entries.
 	hot := c.Mix == 2
-	hotOps := []uint64{0, 0, 2, 4, 4, 5, 5, 6, 6, 9, 9, 9, 9, 9, 9, 9, 9, 8, 7, 10, 12, 13}
+	hotOps := []uint64{0, 0, 2, 4, 4, 5, 5, 6, 6, 9, 9, 9, 9, 9, 9, 9, 9, 8, 7, 10, 12, 13, 14}
 	sdir := func() string {
 		if hot {
 			return fmt.Sprintf("s%d", r.next()%2)
@@ -460,7 +460,7 @@ func isoNoiseWild(c isoCase, n int, srv *p9.Server, cl *p9.Client, progress *int
 		default:
 		}
 		atomic.StoreInt64(progress, int64(i))
-		op := r.next() % 14
+		op := r.next() % 15
 		if hot {
 			op = hotOps[r.next()%uint64(len(hotOps))]
 		}
@@ -549,6 +549,23 @@ func isoNoiseWild(c isoCase, n int, srv *p9.Server, cl *p9.Client, progress *int
 		case 11: // multi-component walk through the shared area
 			if f := walk(root, "shared", sdir(), "d0", ent()); f != nil {
 				f.Close()
+			}
+		case 14: // hard links: of a kept fid's entry, and (refused by the backend) of directories, the target directory itself included
+			if d := walk(root, "shared", sdir()); d != nil {
+				switch r.next() % 3 {
+				case 0:
+					d.Link(d, ent())
+				case 1:
+					if t := walk(root, "shared", sdir()); t != nil {
+						d.Link(t, ent())
+						t.Close()
+					}
+				default:
+					if len(keep) > 0 {
+						d.Link(keep[int(r.next()%uint64(len(keep)))], ent())
+					}
+				}
+				d.Close()
 			}
 		case 12: // a throw-away connection binds some fids
 			if side == nil {
